@@ -191,28 +191,42 @@ class TrackerFamily(Family):
         if prop == "C16":
             self.uses_gen = ("auditd.go",)
 
+    def _conc(self):
+        from .fam_conc import ConcFamily
+        return ConcFamily(self.prop, "tracker")
+
     def modes_for(self, c):
+        if c.get("threads"):
+            return (["conc"], ["conc"])
         if c.get("timed"):
             return (["timed"], ["timed"])
         return (self.harness_mode, self.driver_args)
 
     def impl_obs_for(self, c, raw):
+        if c.get("threads"):
+            return self._conc().impl_obs(raw)
         if c.get("timed") and 60 < c["timed"][0] <= 120:
             return "C:*"
         return raw
 
     def harness_line(self, c):
+        if c.get("threads"):
+            return self._conc().harness_line(c)
         if c.get("timed"):
             return "%s %d %d" % (c["id"], c["timed"][0], c["timed"][1])
         return "%s %s %s" % (c["id"], c["fail"], ";".join(c["ops"]))
 
     def driver_line(self, c, impl_obs):
+        if c.get("threads"):
+            return self._conc().driver_line(c, impl_obs)
         s = self.harness_line(c)
         if impl_obs is not None:
             s += " obs=" + impl_obs
         return s
 
     def sample(self, c):
+        if c.get("threads"):
+            return self._conc().sample(c)
         if c.get("timed"):
             return {"real_time": True, "seconds_between_the_halves": c["timed"][0], "unrelated_login_every_s": c["timed"][1]}
         return {"fail_at_write": c["fail"], "ops": c["ops"]}
@@ -221,7 +235,7 @@ class TrackerFamily(Family):
         return "%s|%s" % (";".join(c["ops"]), rec.get("ispec"))
 
     def shrink_candidates(self, c):
-        if c.get("timed") or c.get("recorded"):
+        if c.get("timed") or c.get("recorded") or c.get("threads"):
             return []
         ops = c["ops"]
         out = []
@@ -274,6 +288,12 @@ class TrackerFamily(Family):
                     cs.append({"fail": "-", "ops": f[1].split(";"), "pre_obs": f[2], "recorded": True})
                     k += 1
             self.rule += "; plus %d kernel events of the repository's recorded audit logs through the real parser / reassembler / coalescer" % k
+        if p in ("C16", "C04"):
+            # cleanup (and other deliveries) while another operation is stalled in an event write, free-running: the
+            # cleanup must wait for the tracker and then take effect — judged against the sequential outcomes
+            hc = [dict(h, ops=[], fail="-") for h in self._conc().hold_cases(tier)]
+            cs += hc
+            self.rule += "; plus %d free-running concurrent programs with a stalled event write (cleanup must not be skipped)" % len(hc)
         if p == "C16" and not quick:
             # the real processor with its real one-minute ticker, in real time (run concurrently: about 2.5 min)
             for gap, noise in ((30, 0), (45, 20), (135, 0), (140, 40), (150, 55)):
